@@ -8,7 +8,7 @@ import os
 
 from ..cfg import cfg_of
 from ..model import AnalysisError, call_name, calls_in, dotted, norm
-from .. import inline, machines, rules
+from .. import inline, machines, normal, rules
 from .. import conds as cnd
 
 REF = os.path.join(os.path.dirname(os.path.dirname(__file__)), "reference", "e30_comm.json")
@@ -336,7 +336,8 @@ def check_timers(ctx, m):
     # S1F13 on entering WAIT_CRA (GemHandler side)
     gh = repo.cls("GemHandler")
     init = gh.methods["__init__"]
-    regs2 = {norm(c.func.value): norm(c.args[0]) for c in calls_in(init.node) if isinstance(c.func, ast.Attribute) and c.func.attr == "register" and c.args}
+    init_n = normal.normalised(ctx, init)  # a local that holds the freshly created state machine is the attribute it is stored in
+    regs2 = {norm(c.func.value): norm(c.args[0]) for c in calls_in(init_n) if isinstance(c.func, ast.Attribute) and c.func.attr == "register" and c.args}
     h = regs2.get("self._communication_state.wait_cra.events.enter")
     ok = h == "self._on_state_wait_cra"
     ctx.ob("C07.P4", "GemHandler.__init__", ok, "entering WAIT_CRA is wired to the S1F13 sender" if ok else f"WAIT_CRA enter handler is {h}", key="wait-cra-wired", where=init.where)
